@@ -356,7 +356,11 @@ impl FieldMap {
             )));
         }
         let mut ki: HashMap<config::FieldKey, Field> = HashMap::with_capacity(config_mapping.len());
-        for (&k, pos) in config_mapping {
+        // Walks the fields in a fixed order, so that the same config always reports the same error.
+        let mut config_fields: Vec<(&config::FieldKey, &config::FieldPos)> =
+            config_mapping.iter().collect();
+        config_fields.sort_by_key(|(k, _)| **k as usize);
+        for (&k, pos) in config_fields {
             let field = match &pos {
                 config::FieldPos::Index(i) => Ok(Field::ColumnIndex(i.as_zero_based())),
                 config::FieldPos::Label(label) => hm
